@@ -235,10 +235,13 @@ def one_run(seed, run, force_config=None, overrides=None, max_diag=3, seq_only=F
         if obs.diff(a_n, r_n):
             res["not_c02"] += 1  # wrong even without any other read: a builder-history defect (C01), not C02
             continue
-        # with the reads, sequentially?
+        # with the reads, sequentially?  (the final observation pass is itself a sequence of reads - hash, ==,
+        # renders of every live object - so it is repeated in full, in the same order)
         env_s, _, _ = execute_phases(program, n1, n2, st, None)
-        a_s = engine.slot_obs(env_s, victim, **okw)
-        seq_fails = bool(obs.diff(a_s, r_n))
+        bad_s, _, _ = compare_all(program, env_s, st, okw, n1, n2)
+        hit = [x for x in bad_s if x[0] == victim]
+        seq_fails = bool(hit)
+        a_s = hit[0][2] if hit else engine.slot_obs(env_s, victim, **okw)
         obj = program[victim]["o"] if is_read else victim
         target = engine._deref(env_s, obj)
         label = stmt_label(L, target) if is_object_slot(target) else "?"
@@ -247,6 +250,9 @@ def one_run(seed, run, force_config=None, overrides=None, max_diag=3, seq_only=F
             kind = "repeat"
             payload_exec = {"config": "seq"}
             a_show, r_show = a_s, r_n
+        elif plan is None:
+            res["harness"].append({"victim": victim, "why": "sequential mismatch did not reproduce on re-execution"})
+            continue
         else:
             kind = "thread" if config == "thr" else "fault"
             tr2 = trace
@@ -313,12 +319,20 @@ def minimise_seq(program, victim, n1, n2, st, okw):
     base = set(lang.cone(program, victim))
     extra = set(range(len(program))) - base
 
-    def fails(keep):
-        env = engine.execute(program, share_tables=st, only=set(keep))
-        a = engine.slot_obs(env, victim, **okw)
-        r = engine.reference_obs(program, victim, st, **okw)
-        return bool(obs.diff(a, r))
+    r_victim = engine.reference_obs(program, victim, st, **okw)
 
+    def fails(keep):
+        keep = set(keep)
+        env = engine.execute(program, share_tables=st, only=keep)
+        # same observation discipline as the check: every kept slot is observed, in order, then the victim is judged
+        for i in sorted(keep):
+            if i != victim and is_object_slot(env.heap[i]):
+                engine.slot_obs(env, i, **okw)
+        a = engine.slot_obs(env, victim, **okw)
+        return bool(obs.diff(a, r_victim))
+
+    if not fails(base | extra):
+        return program, victim, n1, n2
     m = shrink.minimise_extra(program, base, extra, fails)
     keep = sorted(base | m)
     prog2, mp = shrink.slice_program(program, keep)
@@ -334,8 +348,11 @@ def replay(payload):
         return replay_hashseed(payload)
     if payload.get("config", "seq") == "seq":
         env, _, _ = execute_phases(prog, n1, n2, st, None)
-    else:
-        env, _, _ = execute_phases(prog, n1, n2, st, payload["plan"], trace=payload["trace"])
+        bad, _, _ = compare_all(prog, env, st, okw, n1, n2)  # full observation pass, as in the check
+        if any(x[0] == v for x in bad):
+            return True, payload["signature"]
+        return False, "not reproduced"
+    env, _, _ = execute_phases(prog, n1, n2, st, payload["plan"], trace=payload["trace"])
     a = engine.slot_obs(env, v, **okw)
     r = engine.reference_obs(prog, v, st, **okw)
     if obs.diff(a, r):
